@@ -21,3 +21,4 @@ Definition k_flow_async_get_key : pfun :=
       SReturn (PCall "_process_get_key_result" [(PName "resp")])
     ]
   ] |}.
+Definition k_flow_async_get_key_defaults : list (string * pexp) := [("l0", (PInt (-1))); ("l1", (PInt (-1))); ("l2", (PInt (-1))); ("username", PNone); ("password", PNone); ("auth_protocol", (PStr [110; 101; 103; 111; 116; 105; 97; 116; 101]))].
